@@ -1,5 +1,5 @@
 """Property -> rule functions."""
-from .rules import safety, codecs, determinism, exhaust, otl, tables, xmlvocab, container, fea, curves, cff
+from .rules import safety, codecs, determinism, exhaust, otl, tables, xmlvocab, container, fea, curves, cff, design
 
 
 def _scoped(fn, **kw):
@@ -25,5 +25,6 @@ PROPS = {
     "C15": codecs.ALL,
     "C16": determinism.ALL,
     "C17": exhaust.ALL_C17,
+    "C19": design.C19,
     "C20": safety.ALL,
 }
